@@ -25,6 +25,17 @@ CHECKS = {
         "power-loss semantics). Non-deterministic outputs are judged complete by relic verify + size.",
    technique="TLA+ file-system/protocol model checked by TLC; strace-recorded traces validated against the spec; SIGKILL fault injection per syscall boundary",
    engine="outputfs"),
+ "C20": dict(cat="model_checking", design="§4 C20",
+   text="spec/Health.tla: counter with hysteresis, staleness in half-intervals, disable flag, loop life cycle; TLC checks Counter, "
+        "HealthyIff (the property as stated, over trailing failures), OneSuccessRestores, NoCheckAfterExit and closed ~> loop exited "
+        "(WF), 7 negative controls. Binding: every action sequence of length 6 for N in 1..3 x disabled (and two-token/timeout "
+        "sequences) is replayed on a real server.Server with scripted fake tokens; after each step GET /health through the real "
+        "handler and the counter must equal the specification; after Close the loop goroutine must be gone; a hook-free real-time "
+        "run checks that the loop itself performs the checks and stops (no pings, no CPU) after Close.",
+   note="Trusted: verif hooks VerifHealthCheckOnce/VerifAgeLastPing (time is simulated by ageing the stamp), goroutine "
+        "introspection via runtime.Stack. Fake tokens registered through the exported token.Openers map.",
+   technique="TLA+ spec + TLC exhaustive (safety + liveness); spec behaviours replayed step by step on the real server",
+   engine="health"),
 }
 
 NOT_YET = {}
